@@ -101,6 +101,19 @@ pub fn boundary_intervals() -> Vec<i64> {
         v.push(x);
         v.push(-x);
     }
+    // whole days plus / minus whole seconds, minutes and hours
+    for days in [0, d, 2 * d, 1000 * d] {
+        for k in [1i64, 2, 30, 59, 60, 61, 3599, 3600, 3601, 43_200, 86_399] {
+            for x in [days + k * 1_000_000, days - k * 1_000_000] {
+                if x != 0 && x.abs() <= mx {
+                    v.push(x);
+                    v.push(-x);
+                }
+            }
+        }
+    }
+    v.sort();
+    v.dedup();
     v
 }
 
